@@ -18,6 +18,7 @@
 #include <string.h>
 #include <stdlib.h>
 #include <stdio.h>
+#include <unistd.h>
 #include <cppcms/json.h>
 #include <cppcms/http_cookie.h>
 #include <cppcms/session_api.h>
@@ -396,6 +397,21 @@ static void pool_scenario(std::vector<std::string> const &t,std::ostream &out)
 	if(a.count("key")) s["session"]["client"]["key"]=unhex(a["key"]);
 	if(a.count("hkey")) s["session"]["client"]["hmac_key"]=unhex(a["hkey"]);
 	if(a.count("ckey")) s["session"]["client"]["cbc_key"]=unhex(a["ckey"]);
+	// keys read from files (session.client.key_file / hmac_key_file / cbc_key_file): content given in hex
+	std::vector<std::string> tmpfiles;
+	struct cleaner { std::vector<std::string> &f; cleaner(std::vector<std::string> &x):f(x){} ~cleaner(){ for(size_t i=0;i<f.size();i++) remove(f[i].c_str()); } } cl(tmpfiles);
+	char const *kf[3][2]={{"keyfile","key_file"},{"hkeyfile","hmac_key_file"},{"ckeyfile","cbc_key_file"}};
+	for(int j=0;j<3;j++) {
+		if(!a.count(kf[j][0])) continue;
+		char path[64]; strcpy(path,"/tmp/C05-key-XXXXXX");
+		int fd=mkstemp(path);
+		if(fd<0) throw std::runtime_error("mkstemp failed");
+		std::string content=unhex(a[kf[j][0]]);
+		if(!content.empty() && write(fd,content.data(),content.size())!=(ssize_t)content.size()) { close(fd); throw std::runtime_error("write failed"); }
+		close(fd);
+		tmpfiles.push_back(path);
+		s["session"]["client"][kf[j][1]]=std::string(path);
+	}
 	s["session"]["timeout"]=atoi(a["timeout"].c_str());
 	s["session"]["expire"]=a.count("expire") ? a["expire"] : std::string("fixed");
 	std::unique_ptr<cppcms::session_pool> pool;
@@ -415,6 +431,7 @@ static void pool_scenario(std::vector<std::string> const &t,std::ostream &out)
 		else if(m.find("invalid key length")!=std::string::npos) cls="aeskeylen";
 		else if(m.find("is not supported")!=std::string::npos) cls="aesalgo";
 		else if(m.find("hexadecimal")!=std::string::npos) cls="badhex";
+		else if(m.find("is empty")!=std::string::npos) cls="keyfileempty";
 		out << "cfgerr:" << cls;
 		return;
 	}
@@ -490,12 +507,19 @@ int main()
 			if(t.empty()) out << "BAD-CASE";
 			else if(t[0]=="scn") scenario(t,out);
 			else if(t[0]=="pool") pool_scenario(t,out);
+			else if(t[0]=="kat" && t.size()>=3) {
+				// known-answer lines: raw block decryptions and HMAC tags as the harness computes them for the model
+				prims pr;
+				if(t[1]=="aes") { std::string body; for(size_t i=3;i<t.size();i++) body+=unhex(t[i]); pr.blocks(unhex(t[2]),body); }
+				else if(t.size()==4) pr.hmac(alg_id(t[1]),unhex(t[2]),unhex(t[3]));
+				out << "ok" << pr.out.str();
+			}
 			else out << "BAD-CASE";
 		}
 		catch(std::exception const &e) { out.str(""); out << "HARNESS-EXC " << e.what(); }
 		std::string o=out.str();
 		for(size_t i=0;i<o.size();i++) if(o[i]=='\n') o[i]='|';
-		std::cout << o << "\n";
+		std::cout << o << "\n" << std::flush; // flushed per line: a crash on the next line must not lose this answer
 	}
 	std::cout.flush();
 	return 0;
